@@ -50,6 +50,9 @@ CLAIMS = {
 
  "C16": ("PARTIAL: the property itself (language equivalence of the pattern matcher over all pattern/path pairs) is value-level and is NOT decided. Decided are structural necessary conditions around the matcher: push/pull matcher selection by right, grant only on some pattern's match, '*' default only for administrators with an empty right, ';' splitting, case folding on both sides, wildcard literals and their compile-time handling, the two segment-count guards.",
          "SSA path-sensitive guard facts + constant evaluation (partial; matcher semantics not decided)", "DESIGN.md §3 C16, §4"),
+
+ "C17": ("Structural necessary conditions of route resolution: canonicalise, refuse directory paths, exact lookup first with return on hit; the scan's candidate is replaced only by a longer matching pattern (iteration-order independent maximisation); lookups write only to copies and return copies; URL join offsets under the URL-ends-in-slash test; result pattern = requested path; pathMatch prefix/equality shape; the factory receives the matched route's fields. Does not decide the joined URL text for every URL form.",
+         "SSA phi/guard pattern analysis + store-site ownership", "DESIGN.md §3 C17"),
 }
 NA = {
 }
